@@ -67,3 +67,21 @@ def parse_summary(path):
         else:
             d.setdefault("other", []).append(line)
     return d
+
+
+def texts_for_ids(cases, ids):
+    """Input bytes (code points re-encoded as UTF-8) of the records with the given ids."""
+    want = set(str(i) for i in ids)
+    out, cur = {}, None
+    with open(cases, encoding="utf-8", errors="replace") as f:
+        for line in f:
+            if line.startswith("CASE "):
+                p = line.split(" ", 3)
+                cur = p[1] if p[1] in want else None
+            elif cur is not None and line.startswith("TEXT "):
+                cps = [int(x) for x in line.split()[2:]]
+                out[cur] = "".join(chr(c) for c in cps).encode("utf-8", "replace")
+                cur = None
+                if len(out) == len(want):
+                    break
+    return out
